@@ -14,8 +14,8 @@ template <class F> Out callLib(const Plan& plan, F&& f, std::string* what = null
 	scribbleStack(static_cast<unsigned char>(plan.envu("stack", 0x5a)));
 	Armed arm;
 	try { f(); return OkOut; }
-	catch (const std::exception& e) { if (what) *what = e.what(); return ErrStd; }
-	catch (...) { if (what) *what = "non-std exception"; return ErrOther; }
+	catch (const std::exception& e) { g_alloc.failCountdown = 0; if (what) *what = e.what(); return ErrStd; }
+	catch (...) { g_alloc.failCountdown = 0; if (what) *what = "non-std exception"; return ErrOther; }
 }
 
 inline std::string outName(Out o) { return o == OkOut ? "ok" : o == ErrStd ? "error" : "foreign-exception"; }
